@@ -5,7 +5,7 @@ CONSTANTS
   SubOpts <- OptErr
   AutoOpts <- AutoNone
   RVs <- RVerr
-  UnsubModes = {}
+  UnsubModes = {"handlerT", "pair"}
   BulkModes = {}
   BulkLens = {}
   WithClear = FALSE
@@ -15,7 +15,7 @@ CONSTANTS
   SubTypes <- TAU
   MaxSubs = 2
   MaxRaises = 1
-  MaxUnsubs = 0
+  MaxUnsubs = 1
   MaxDepth = 2
   MaxOps = 1
   WithDrop = FALSE
